@@ -43,6 +43,41 @@ Theorem C20_error_never_executes : forall c s w o,
 Proof. exact error_never_executes. Qed.
 Print Assumptions C20_error_never_executes.
 
+(* the CLI against a faulty API server, for EVERY answer to the GET and EVERY script of
+   answers to the POST (created / persisted-then-Timeout / Timeout / ServerTimeout / 5xx /
+   AlreadyExists / Conflict): at most one Command is left behind, at most one POST is made,
+   a Command left behind is exactly the one naming the object the GET returned with the
+   verb's action, success means exactly that Command exists, a failed GET or a failed
+   create is reported as an error *)
+Theorem C20_cli_at_most_one_command : forall i, let r := cli_invoke i in
+  (length (r_new r) <= 1)%nat /\ (r_posts r <= 1)%nat /\
+  (forall c, In c (r_new r) -> [c] = cli_create (i_verb i) (i_ns i) (i_target i)) /\
+  (r_ok r = true -> i_get i = GOk /\ r_new r = cli_create (i_verb i) (i_ns i) (i_target i)) /\
+  (i_get i <> GOk -> r_ok r = false /\ r_posts r = 0%nat /\ r_new r = []) /\
+  (i_get i = GOk -> succeeds (hd COk (i_script i)) = false -> r_ok r = false) /\
+  length (r_new r) = length (filter persists (answers (r_posts r) (i_script i))).
+Proof. exact cli_at_most_one_command. Qed.
+Print Assumptions C20_cli_at_most_one_command.
+
+(* end to end, for every list of invocations (same or different targets and actions, earlier
+   Commands still pending): every invocation that reported success has its own request
+   executed, and there is at most one request per invocation *)
+Theorem C20_e2e_success_is_executed : forall invs i,
+  In i invs -> r_ok (cli_invoke i) = true ->
+  exists c, cli_create (i_verb i) (i_ns i) (i_target i) = [c] /\ In (ctl_req c) (e2e_requests invs).
+Proof. exact e2e_success_is_executed. Qed.
+Print Assumptions C20_e2e_success_is_executed.
+
+Theorem C20_e2e_at_most_one_per_invocation : forall invs,
+  (length (e2e_requests invs) <= length invs)%nat.
+Proof. exact e2e_at_most_one_per_invocation. Qed.
+Print Assumptions C20_e2e_at_most_one_per_invocation.
+
+Theorem C20_law_cli_invocation_accepts_model : forall i, let r := cli_invoke i in
+  law_cli_invocation i (r_ok r) (r_gets r) (r_posts r) (r_new r) = true.
+Proof. exact law_cli_invocation_holds. Qed.
+Print Assumptions C20_law_cli_invocation_accepts_model.
+
 (* the extracted law checkers accept the model *)
 Theorem C20_law_cli_accepts_model : forall v ns t, law_cli v ns t (cli_create v ns t) = true.
 Proof. exact law_cli_holds. Qed.
